@@ -1,0 +1,6 @@
+// +build !verif
+
+package pilosa
+
+// verifPoint is a no-op unless built with the "verif" tag (see verif_on.go).
+func verifPoint(name string, a, b uint64) uint64 { return 0 }
